@@ -315,6 +315,20 @@ def check_stake(ctx, it):
     ctx.floor("R09.1", "cw4-stake membership-changing paths", n_pair, 2)
 
 
+def absent_zero(p, want, item=None):
+    """the answer is the zero default on the path that decided the read absent (`match stored { Some(w) => w, None => 0 }`)"""
+    zero = any(x[0] == "default" or x == ("lit", 0) for x in walk(p.ret))
+    if not zero:
+        return False
+    for c in p.conds:
+        t = c[0]
+        inner = t[1] if t[0] == "vfield" and t[2] == "Ok" else t
+        if c[1] == "None" and ((want is not None and inner == want) or
+                               (item is not None and inner[0] == "may_load" and inner[1] == item)):
+            return True
+    return False
+
+
 def check_queries(ctx, it):
     for crate, MEM, TOTAL in (("cw4_group", it["g_members"], it["g_total"]), ("cw4_stake", it["s_members"], it["s_total"])):
         eps = entry_points(ctx.facts, crate)
@@ -354,12 +368,13 @@ def check_queries(ctx, it):
                 n += 1
                 if hv == ["Some"]:
                     want = ("call", "may_load_at_height", (TOTAL, ("unit",), ("vfield", h, "Some", "0")))
-                    good = any(x == want for x in walk(p.ret))
+                    good = any(x == want for x in walk(p.ret)) or absent_zero(p, want)
                     ctx.ob("R09.3", "%s::query/TotalWeight at height" % crate, good,
                            detail="TotalWeight{at_height: Some(h)} does not answer may_load_at_height(TOTAL, h): %s" % show(p.ret)[:200],
                            sample={"ret": show(p.ret)[:200]})
                 elif hv == ["None"]:
-                    good = any(x[0] in ("may_load", "load") and x[1] == TOTAL for x in walk(p.ret)) and \
+                    good = (any(x[0] in ("may_load", "load") and x[1] == TOTAL for x in walk(p.ret)) or
+                            absent_zero(p, None, TOTAL)) and \
                         not any(x[0] == "call" and x[1] == "may_load_at_height" for x in walk(p.ret))
                     ctx.ob("R09.3", "%s::query/TotalWeight live" % crate, good,
                            detail="TotalWeight{at_height: None} does not answer the live TOTAL: %s" % show(p.ret)[:200], sample={"ret": show(p.ret)[:160]})
